@@ -695,3 +695,37 @@ def rule_M9(F, R):
         else:
             R.violation("M9", p, "stale-dependency-map", "%s changes stored tasks through %s at %s and can return Ok with the cached dependency map kept: tasks loaded afterwards report BLOCKED/UNBLOCKED/BLOCKING from the old state" % (short, info["callee"].split("::")[-1], loc(info["sp"])), where(rb, info["bb"]))
     R.floor("M9", "Replica methods that can change stored tasks", n, 4)
+
+
+def rule_M10(F, R):
+    R.begin("M10", "the working set is sparse (index 0 unused, gaps after a rebuild without renumbering): a scan that looks entries up by index must run to largest_index(), not to len() (the number of occupied slots); with k gaps a scan bounded by len() never sees the k highest entries")
+    n = 0
+    for p, b in sorted(F.bodies.items()):
+        if p.startswith("workingset::") or not b.get("blocks"):
+            continue
+        calls = F.calls_in.get(p, ())
+        if not any(any(x.endswith("WorkingSet::by_index") for x in call_names(t)) for (_i, t) in calls):
+            continue
+        rb = b
+        c = cfg_of(rb)
+        fl = flow_of(rb)
+        for (i, t) in c.calls():
+            if not any(x.endswith("WorkingSet::by_index") for x in call_names(t)):
+                continue
+            n += 1
+            sl = fl.slice_operand(t["args"][1])
+            bounds = {x for tt in sl.calls.values() for x in call_names(tt) if re.search(r"WorkingSet::(len|largest_index|iter)$", x)}
+            if any(x.endswith("WorkingSet::len") for x in bounds):
+                R.violation("M10", F.owner(p), "index-scan-bounded-by-len", "working-set entries are looked up by an index that runs to WorkingSet::len(): after a rebuild that left k gaps, the k highest entries are never visited (their dependencies and statuses are missing from what is computed)", where(rb, i))
+            else:
+                R.ok("M10", "by_index lookup not bounded by len() (%s)" % (", ".join(sorted(x.split("::")[-1] for x in bounds)) or "index supplied by the caller"), where(rb, i))
+    # a scan written with WorkingSet::iter() visits every occupied slot by construction
+    niter = 0
+    for p, b in sorted(F.bodies.items()):
+        if p.startswith("workingset::") or not b.get("blocks"):
+            continue
+        for (i, t) in F.calls_in.get(p, ()):
+            if any(x.endswith("WorkingSet::iter") for x in call_names(t)):
+                niter += 1
+                R.ok("M10", "working-set scan by iter()", where(b, i))
+    R.floor("M10", "working-set scans outside the workingset module (by_index lookups + iter() walks)", n + niter, 1)
